@@ -10,7 +10,7 @@ import tempfile
 from ..mon import Reach
 from ..result import Budget, digest, safe
 from .. import agraph
-from ..stream import gen_case, Built, TooExpensive, cpu_budget, CASE_CPU_S
+from ..stream import PATH_SHAPES, gen_case, Built, TooExpensive, cpu_budget, CASE_CPU_S
 from ..gen_lang import Cfg
 from ..gen_model import MCfg
 from . import C09
@@ -113,9 +113,10 @@ def compare(orig, loaded, model, res, count=True):
             y = sorted({n.id for n in getattr(u, rel)})
             if x != y or len(y) != len(getattr(u, rel)):
                 return ('attackgraph.load:attacker-%s' % key, 'attacker %s %s %s, saved %s' % (i, rel, y, x))
-    f = agraph.check_invariants(loaded) or agraph.check_compromise_symmetry(loaded)
-    if f:
-        return ('attackgraph.load:' + f[0], 'loaded graph: ' + f[1])
+    if agraph.check_invariants(orig) is None:
+        f = agraph.check_invariants(loaded) or agraph.check_compromise_symmetry(loaded)
+        if f:
+            return ('attackgraph.load:' + f[0], 'loaded graph: ' + f[1])
     return None
 
 
@@ -153,6 +154,15 @@ def _check_case(case, res, count=True):
             n.extras = rng.choice([{'x': 1}, {'pos': {'x': 1, 'y': 2.5}}, {'note': 'n', 'l': [1, 2]}])
         if r > 0.9:
             n.tags = rng.sample(['hidden', 'suppress', 'trace', 't1', "it's", 'a b'], rng.randint(1, 3))
+    if case.get('readd_node') is not None and g.nodes:
+        # a node object is taken out of the graph and put back under its id: it keeps its own child / parent lists,
+        # its neighbours dropped theirs - links recorded at one end only are what the file has to give back
+        n0 = g.nodes[case['readd_node'] % len(g.nodes)]
+        if n0.children or n0.parents:
+            g.remove_node(n0)
+            g.add_node(n0, node_id=n0.id)
+            if count:
+                res.count('class:links-recorded-at-one-end-only')
     names = [n.full_name for n in g.nodes]
     if len(set(names)) != len(names):
         return None            # not serialisable by design (keyed by full name); C02 guards uniqueness
@@ -183,8 +193,12 @@ def _check_case(case, res, count=True):
         if 'serialise' in kinds and any(k in ('compromise', 'undo', 'node_compromise', 'analyse') for k in kinds[kinds.index('serialise') + 1:]):
             res.count('class:serialised-before-last-change')
     d = tempfile.mkdtemp(prefix='c10-', dir=os.getcwd())
+    from ..stream import shaped_path
+    shape = shaped_path(d, 'g.' + case['fmt'], case.get('path_shape', 'abs'))
     try:
-        path = os.path.join(d, 'g.' + case['fmt'])
+        path = shape.__enter__()
+        if count:
+            res.count('path-shape:' + case.get('path_shape', 'abs'))
         before = agraph.snapshot(g)
         try:
             g.save_to_file(path)
@@ -214,6 +228,27 @@ def _check_case(case, res, count=True):
         f = compare(g, g3, model if use_model else None, res, False)
         if f:
             return (f[0] + ':second-load', 'second load of the same file after the first loaded graph was edited in place: ' + f[1])
+        # the graph shrinks (nodes removed, attackers removed) and is saved to the SAME path again: the file must hold
+        # the smaller graph only
+        if case.get('shrink_and_resave') and len(g.nodes) >= 2 and agraph.check_invariants(g) is None:
+            srng = random.Random(case['shrink_and_resave'])
+            for n0 in srng.sample(list(g.nodes), max(1, len(g.nodes) // 2)):
+                g.remove_node(n0)
+            for t0 in list(g.attackers)[1:]:
+                g.remove_attacker(t0)
+            for n0 in g.nodes:
+                n0.extras = {}
+            try:
+                g.save_to_file(path)
+                g6 = AttackGraph.load_from_file(path, model if use_model else None)
+            except Exception as exc:
+                return ('attackgraph.load:raised-%s:same-path-after-shrinking' % type(exc).__name__,
+                        'the graph lost nodes and was saved to the same path again; save / load raised %r' % (exc,))
+            if count:
+                res.count('class:smaller-graph-saved-over-the-same-path')
+            f = compare(g, g6, model if use_model else None, res, False)
+            if f:
+                return (f[0] + ':same-path-after-shrinking', 'smaller graph saved to the same path again: ' + f[1])
         # the model is edited (an asset replaced by another one: same asset count), the graph regenerated, saved and loaded again
         if use_model and start[0] == 'case' and case.get('edit_model') and model.assets:
             from maltoolbox.attackgraph import AttackGraph as AG
@@ -239,6 +274,7 @@ def _check_case(case, res, count=True):
             if f:
                 return (f[0] + ':after-model-edit', 'second round trip with the same (edited) Model object: ' + f[1])
     finally:
+        shape.__exit__(None, None, None)
         shutil.rmtree(d, ignore_errors=True)
     return None
 
@@ -277,7 +313,9 @@ def gen_case10(rng):
         else:
             hist.append(['remove_attacker', rng.randrange(10)])
     return {'start': start, 'history': hist, 'fmt': rng.choice(['json', 'yml']), 'with_model': rng.random() < 0.5,
-            'deco_seed': rng.randrange(10 ** 9), 'edit_model': rng.randrange(1, 1000) if rng.random() < 0.5 else None}
+            'deco_seed': rng.randrange(10 ** 9), 'edit_model': rng.randrange(1, 1000) if rng.random() < 0.5 else None,
+            'readd_node': rng.randrange(1000) if rng.random() < 0.1 else None, 'path_shape': rng.choice(PATH_SHAPES),
+            'shrink_and_resave': rng.randrange(1, 10 ** 9) if rng.random() < 0.3 else None}
 
 
 def run(rng, res, tier, shard, nshards):
